@@ -120,11 +120,55 @@ class OwnershipInstrument(Instrument):
             if sig == "file-under-static-tree-owned-by-someone-else" and before is not None \
                     and self._tree_came_back_by_recycling(before, cur, msg):
                 sig = "file-declared-while-tree-was-detached-and-tree-re-attached-by-recycling"
-            if sig == "glob-matches-built-path" and before is not None \
-                    and self._output_came_back_by_recycling(before, cur, msg):
-                sig = ("pattern-registered-while-output-was-detached-and-output-re-attached-by-"
-                       "recycling")
+            if sig == "nested-static-trees" and before is not None \
+                    and self._nested_by_recycling(before, cur, msg):
+                sig = "tree-registered-while-nested-tree-was-detached-and-re-attached-by-recycling"
+            if sig == "glob-matches-built-path" and before is not None:
+                if self._output_came_back_by_recycling(before, cur, msg):
+                    sig = ("pattern-registered-while-output-was-detached-and-output-re-attached-"
+                           "by-recycling")
+                elif self._pattern_came_back_by_recycling(before, cur, msg):
+                    sig = ("output-declared-while-pattern-owner-was-detached-and-pattern-re-"
+                           "attached-by-recycling")
             self.note("ownership/" + sig, f"after commit {ncommit}: {msg}")
+
+    def _nested_by_recycling(self, before, cur, msg):
+        """One of the two trees was detached before this commit and its creator has not
+        registered it in this build: it returned with the recycled subtree of its creator."""
+        outer, inner = msg.split(" contains ")
+        for label in (outer, inner):
+            for n in cur.nodes.values():
+                if n["kind"] == "st" and n["label"] == label and not n["detached"]:
+                    was = before.nodes.get(n["i"])
+                    if was is None or not was["detached"]:
+                        continue
+                    owner = cur.nodes[n["creator"]]["label"]
+                    declared = any(e["op"] == "static" and e["label"] == owner
+                                   and label.rstrip("/") in [t.rstrip("/") for t in e["trees"]]
+                                   for e in self.session.steplog)
+                    if not declared:
+                        return True
+        return False
+
+    def _pattern_came_back_by_recycling(self, before, cur, msg):
+        """The step that registered the pattern was detached before this commit and has not
+        registered the pattern in this build: the registration returned with the recycled step."""
+        pattern = msg.split("pattern ")[1].split(" of ")[0].strip("'")
+        owner = msg.split(" of '")[1].split("' matches ")[0]
+        for n in cur.nodes.values():
+            if n["kind"] == "step" and n["label"] == owner and not n["detached"]:
+                was = before.nodes.get(n["i"])
+                if was is None or not was["detached"]:
+                    return False
+                for e in self.session.steplog:
+                    if e["label"] != owner:
+                        continue
+                    if e["op"] == "glob" and e["pattern"] == pattern:
+                        return False
+                    if e["op"] == "static" and pattern in e.get("patterns", []):
+                        return False
+                return True
+        return False
 
     def _output_came_back_by_recycling(self, before, cur, msg):
         """The output named in the message was detached before this commit and no request of this
